@@ -138,7 +138,7 @@ impl Symbols {
 }
 
 /// Escape the bytes in some negative ASCII stringlike context.  The escape value is not inverted.
-/// `bytes` are the bytes to escape, literal hex escapes will hex-escape the backslash (`\x5c`)
+/// `bytes` are the bytes to escape, literal hex escapes will hex-escape the (negative ASCII) backslash (`\xdc`)
 /// `offset` is the index to start of context, one past the triggering byte
 /// `terminator` are characters that close the context
 /// Returns escaped string and index to terminator, terminator not included in string
@@ -160,7 +160,7 @@ pub fn bytes_to_escaped_string_ex(bytes: &[u8], offset: usize, escapes: &[i64], 
                 x>=48 && x<=57 || x>=65 && x<=70 || x>=97 && x<=102
             };
             if bytes[idx+1]==128+120 && is_hex(bytes[idx+2]) && is_hex(bytes[idx+3]) {
-                ans += "\\x5c";
+                ans += "\\xdc"; // negative ASCII backslash: escapes are not inverted by the tokenizer
             } else {
                 ans += "\\";
             }
